@@ -463,6 +463,52 @@ fn case2<T: Elem>(case: u64, args: &Args, ev: &mut Ev, log: &mut EventLog) {
     }
 }
 
+/// Whether a data set is accepted must not depend on its unit either: Periodic data whose end
+/// rows differ by an ulp or by a sliver of the data's own scale, built in units 2^j apart, are
+/// accepted in all units or in none (and since the ends differ: in none).
+fn nearly_periodic(ev: &mut Ev) {
+    use vh::ndarray_interp::interp1d::cubic_spline::{BoundaryCondition, CubicSpline};
+    use vh::ndarray_interp::interp1d::Interp1D;
+    let mut rng = Rng::derive(15, "C15-nearly-periodic", &[0]);
+    for round in 0..300u64 {
+        let n = 3 + rng.below(7);
+        let e = rng.irange(-90, 90) as i32;
+        let unit = 2f64.powi(e);
+        let mut data: Vec<f64> = (0..n).map(|_| (rng.f01() * 2.0 - 1.0) * unit).collect();
+        let first = data[0];
+        let last = match round % 4 {
+            0 => f64::from_bits(first.to_bits() + 1 + rng.below(3) as u64),
+            1 => first + unit * 2f64.powi(-45 + rng.below(20) as i32),
+            2 => first - unit * 2f64.powi(-30),
+            _ => first * (1.0 + 2f64.powi(-40)),
+        };
+        if last == first {
+            continue;
+        }
+        data[n - 1] = last;
+        let x: Array1<f64> = (0..n).map(|i| i as f64 * 0.5 + if i > 0 { rng.f01() * 0.25 } else { 0.0 }).collect();
+        let mut outcomes: Vec<(i32, bool)> = Vec::new();
+        for j in [0i32, 35, -35, 70, -60] {
+            let d: Array1<f64> = data.iter().map(|v| v * 2f64.powi(j)).collect();
+            if d.iter().any(|v| !v.is_finite() || (*v != 0.0 && v.abs() < 1e-290)) {
+                continue;
+            }
+            let ok = Interp1D::builder(d).x(x.clone()).strategy(CubicSpline::new().boundary(BoundaryCondition::Periodic)).build().is_ok();
+            outcomes.push((j, ok));
+        }
+        ev.add("nearly_periodic_problems", 1);
+        ev.add("nearly_periodic_builds", outcomes.len() as u64);
+        if outcomes.iter().any(|(_, ok)| *ok != outcomes[0].1) {
+            ev.violation(
+                "C15:acceptance-depends-on-unit",
+                &format!("Periodic data {:?} (ends differ by {:e}): accepted per unit 2^j: {:?}", data, (last - first).abs(), outcomes),
+                9_900_000 + round,
+                J::obj().set("round", round),
+            );
+        }
+    }
+}
+
 fn main() {
     let args = Args::parse("C15");
     let n = args.budget(900, 100000);
@@ -503,6 +549,9 @@ fn main() {
     };
     let mut ev = ev;
     ev.merge(ev_small);
+    if args.only.is_none() && args.shard == 0 {
+        nearly_periodic(&mut ev);
+    }
     ev.finish(
         &args,
         "Linear / CubicSpline (every whole-set boundary, Periodic, all 25 mixed pairs with derivative \
